@@ -207,7 +207,7 @@ class Batch:
             if os.path.exists(path):
                 os.remove(path)
             e = self.env(cur, to, samples if cur == frm else 0)
-            e['VSIM_RUN_TIMEOUT_S'] = str(int(max(20, 4 * per_run_timeout)))  # the worker's own per-run watchdog (exit 3 with stacks)
+            e['VSIM_RUN_TIMEOUT_S'] = str(int(max(60, 6 * per_run_timeout)))  # the worker's own per-run watchdog (exit 3 with stacks)
             rc, err, _ = run_worker(self.binary, e, path, timeout=60 + per_run_timeout * (to - cur))
             recs = read_results(path)
             os.remove(path) if os.path.exists(path) else None
